@@ -9,7 +9,6 @@ Notation "x <- p ;; q" := (bind p (fun x => q)) (at level 100, p at next level, 
 Definition as_list (o : option value) : option (list string) :=
   match o with Some (VList l) => Some l | _ => None end.
 
-Definition arg (argv : list string) (i : nat) : string := nth i argv "".
 
 (** list[i] = x for 0 <= i < len *)
 Definition list_set (l : list string) (i : Z) (x : string) : list string :=
